@@ -390,11 +390,18 @@ func (s *Sim) IterStep(i int) {
 		// Next with a write transaction on ANOTHER table that was opened before a later commit to the iterated table:
 		// only what was committed when that write transaction was created may be delivered.
 		it := live[s.Rng.IntN(len(live))]
+		// The outer transaction must hold a table that sorts BEFORE t in the lock order: this goroutine acquires a second
+		// table lock (for the nested commit to t) while holding the first, which is only deadlock-free against all-at-once
+		// lockers (the collector takes {other, t} in order) if it also respects the order.
 		var other *simTable
 		for _, o := range s.Tabs {
-			if o != t {
-				other = o
+			if o == t {
+				break
 			}
+			other = o
+		}
+		if other == nil {
+			return
 		}
 		w := s.DB.WriteTxn(other.tbl)
 		outer := s.open
